@@ -96,7 +96,40 @@ def b_validate(tier, seed):
                     both = m.validate([d, d0])
                     if len(both) != len(msgs) + len(m.validate(d0)):
                         fails.append(dict(key=f"list:{fault}", doc=key, error="list verdict differs from the per-dictionary verdicts"))
-    return _rec("seam/validation-verdict", "schema-valid generated documents of every type; single faults (unknown keyword, enum, type, arity) at every object of random documents", n, fails)
+    # simultaneous faults: an unknown keyword in EVERY object at once, then a value fault in every object that has a slot for one:
+    # the statement wants a message for every faulty object / keyword, so each must be reported at its own position
+    SIBLINGS = ("MAP\n NAME 'm'\n LAYER\n  NAME 'a'\n  TYPE POINT\n  STATUS ON\n  CLASS\n   NAME 'c1'\n   STYLE\n    WIDTH 1\n   END\n   STYLE\n    WIDTH 2\n   END\n   LABEL\n    SIZE 8\n   END\n   LABEL\n    SIZE 9\n   END\n  END\n"
+                "  CLASS\n   NAME 'c2'\n   STYLE\n    WIDTH 3\n   END\n  END\n END\n LAYER\n  NAME 'b'\n  TYPE LINE\n  STATUS OFF\n  CLASS\n   NAME 'c3'\n  END\n END\n"
+                " SYMBOL\n  NAME 's1'\n  TYPE ELLIPSE\n END\n SYMBOL\n  NAME 's2'\n  TYPE ELLIPSE\n END\n OUTPUTFORMAT\n  NAME 'o1'\n  DRIVER 'AGG/PNG'\n END\n OUTPUTFORMAT\n  NAME 'o2'\n  DRIVER 'AGG/PNG'\n END\nEND")
+    multi_docs = [(key, L(gen.render(root), include_position=True)) for key, root, path in base_docs] + [("siblings", L(SIBLINGS, include_position=True))]
+    for key, d0 in multi_docs:
+        for fault in ("unknown", "value"):
+            d = copy.deepcopy(d0)
+            expect = []
+            for opath, obj in list(_objects(d, [])):
+                if fault == "unknown":
+                    obj["zz_unknown_kw"] = "x"
+                    pos = obj.get("__position__") or {}
+                    expect.append((obj["__type__"].upper(), pos.get("line"), pos.get("column")))
+                else:
+                    kw = _inject(obj, "enum", rnd, True) or _inject(obj, "type", rnd, True)
+                    if kw is not None:
+                        pos = (obj.get("__position__") or {}).get(kw) or {}
+                        if isinstance(pos, dict):
+                            expect.append((kw.upper(), pos.get("line"), pos.get("column")))
+            if len(expect) < 2:
+                continue
+            n += 1
+            try:
+                msgs = m.validate(d)
+            except Exception as ex:
+                fails.append(dict(key=f"multi-fault:{fault}", doc=key, error=_exc(ex)))
+                continue
+            got = {(x["message"].rsplit(" ", 1)[-1], x.get("line"), x.get("column")) for x in msgs}
+            missing = [e for e in expect if e not in got]
+            if missing:
+                fails.append(dict(key=f"multi-fault:{fault}", doc=key, missing=missing[:4], n_expected=len(expect), n_messages=len(msgs)))
+    return _rec("seam/validation-verdict", "schema-valid generated documents of every type; single faults (unknown keyword, enum, type, arity) at every object of random documents; simultaneous faults in every object (each reported at its own position)", n, fails)
 
 
 def _upper_keys(x):
@@ -598,7 +631,7 @@ def b_purity(tier, seed):
     rnd = random.Random(seed)
     fails, n = [], 0
     docs = [(k, gen.render(r)) for k, r, p in generated_documents(tier, seed, n_random=25)][::5]
-    docs = [(k, t) for k, t in docs if _parses(t)]
+    docs = [(k, t) for k, t in docs if _parses(t) and not re.search(r"(?im)^\s*include\s", t)]    # no INCLUDE of files that do not exist
     # arguments are not modified
     for key, text in docs:
         d = L(text)
@@ -646,6 +679,11 @@ def b_purity(tier, seed):
     # threads (bounded: no schedule is enumerated)
     texts = [t for _, t in docs[:8]]
     want = [m.dumps(m.loads(t)) for t in texts]
+    # the same documents with a distinct comment at the end of every line, loaded with comments and positions kept
+    ctexts = ["\n".join(f"{ln} # doc {k} line {j}" if ln.strip() and '"' not in ln and "'" not in ln else ln for j, ln in enumerate(t.split("\n")))
+              for k, t in enumerate(texts)]
+    ctexts = [t for t in ctexts if _parses(t)]
+    cwant = [m.dumps(m.loads(t, include_comments=True, include_position=True)) for t in ctexts]
     old = sys.getswitchinterval()
     sys.setswitchinterval(1e-6)
     results = {}
@@ -660,6 +698,12 @@ def b_purity(tier, seed):
                 out.append((t, m.dumps(d)))
             except Exception as ex:
                 out.append((t, "EXC " + _exc(ex)))
+            if ctexts:
+                ct = ctexts[(i + j) % len(ctexts)]
+                try:
+                    out.append((ct, m.dumps(m.loads(ct, include_comments=True, include_position=True))))
+                except Exception as ex:
+                    out.append((ct, "EXC " + _exc(ex)))
         results[i] = out
     try:
         th = [threading.Thread(target=work, args=(i,)) for i in range(16)]
@@ -670,9 +714,10 @@ def b_purity(tier, seed):
     for i, out in results.items():
         for t, got in out:
             n += 1
-            if got != want[texts.index(t)]:
-                fails.append(dict(key="threads", thread=i, got=got[:100]))
-    return _rec("seam/purity-reuse-threads", "arguments pickled before/after; 40 (thorough 400) step reuse sequences with failing parses in between; 16 threads under switch interval 1e-6", n, fails)
+            exp = want[texts.index(t)] if t in texts else cwant[ctexts.index(t)]
+            if got != exp:
+                fails.append(dict(key="threads" + ("" if t in texts else "-with-comments"), thread=i, got=got[:100]))
+    return _rec("seam/purity-reuse-threads", "arguments pickled before/after; 40 (thorough 400) step reuse sequences with failing parses in between; 16 threads under switch interval 1e-6, plain and with include_comments/include_position on per-document comments", n, fails)
 
 
 # ---------------------------------------------------------------------------------------------
@@ -760,6 +805,7 @@ def b_comments(tier, seed):
         text = gen.render(root)
         lines = text.split("\n")
         out_lines, expect_end, expect_above, cid, banners = [], {}, {}, 0, []
+        used = set()       # comment texts that are just a keyword / block name (each used once per document, so texts stay distinct)
         for i, ln in enumerate(lines):
             s = ln.strip()
             word = s.split(" ")[0].upper() if s else ""
@@ -769,6 +815,10 @@ def b_comments(tier, seed):
             if is_opener and rnd.random() < 0.6:
                 cid += 1
                 c = f"# above {cid} {word}"
+                label = rnd.choice(["# " + word.lower(), "#" + word, "## " + word.title(), "# " + word.title()])
+                if rnd.random() < 0.3 and label.lower() not in used:
+                    used.add(label.lower())
+                    c = label
                 pad = " " * (len(ln) - len(ln.lstrip()))
                 if rnd.random() < 0.35:
                     # a banner: identical rule lines above and below the text
@@ -781,6 +831,10 @@ def b_comments(tier, seed):
             if simple and rnd.random() < 0.6:
                 cid += 1
                 c = f"# end {cid}" if cid % 3 else f"/* end {cid} */"
+                label = "# " + word.lower()
+                if rnd.random() < 0.25 and label not in used:
+                    used.add(label)
+                    c = label
                 out_lines.append(ln + " " + c)
                 expect_end[c] = s
             else:
@@ -834,6 +888,10 @@ def b_comments(tier, seed):
             text = fh.read()
         if "#" not in text and "/*" not in text:
             continue
+        try:
+            L(text)
+        except Exception:
+            continue          # a corpus file the grammar does not accept at all (reported by C01's corpus round trip, not a comment matter)
         n += 1
         try:
             d = L(text, include_comments=True)
